@@ -11,7 +11,8 @@ LEVEL_NOTE = ("Trusted: Lean 4.33 kernel; axioms per theorem are audited on ever
 
 CHECKS = {
     "C01": ("conservation of messages per subscription actor by induction over all turn sequences (List.Perm invariant), drain and "
-            "requeue theorems; tied by seq correspondence + loss/foreign oracle", "5-C01"),
+            "requeue theorems, system-level fan-out theorem (one post turn per attached subscription, others untouched); tied by seq "
+            "correspondence, turn-trace validation, slice-P1 refinement on name races + loss/foreign oracle", "5-C01"),
     "C02": ("tracker consistency invariant and ack-finality by induction over all turn sequences; tied by tracker/seq correspondence "
             "+ ack-finality oracle", "5-C02"),
     "C03": ("lease persistence/exclusivity and ack-id freshness as inductive invariants over all turn sequences; tied by seq "
@@ -23,14 +24,18 @@ CHECKS = {
     "C08": ("id arithmetic (omega) and FIFO queue theorems over all turns; tied by seq correspondence + order oracle", "5-C08"),
     "C09": ("payload equality by conservation, id injectivity (omega), base64 round trip by induction; tied by seq correspondence "
             "with binary/attribute payload generators + payload oracle", "5-C09"),
-    "C10": ("handler case analysis: create/get/delete/data-plane status and state theorems for all states and names; tied by seq "
-            "correspondence over a name pool + sequential map-spec oracle", "5-C10"),
-    "C11": ("deletion theorems on the system model (detach, frame, deleted-topic reporting, no re-attach); tied by seq correspondence "
-            "+ listing oracle", "5-C11"),
+    "C10": ("handler case analysis: create/get/delete/data-plane status and state theorems for all states and names, global invariant "
+            "over all histories (SysInv), and slice P1 over all interleavings of create/delete of one name (linearization-point theorems); "
+            "tied by seq correspondence over a name pool, refinement check of the hook log against slice P1, per-name linearizability "
+            "oracle on concurrent histories", "5-C10"),
+    "C11": ("deletion theorems on the system model (detach, frame, deleted-topic reporting, no re-attach), topic list = live subscriptions "
+            "as a global invariant, slice P1 inductive invariant (no ghost at any moment, exact at quiescence, progress, pre-fix ghost "
+            "witness); tied by seq correspondence, refinement check of the hook log against slice P1 + listing oracle", "5-C11"),
     "C13": ("paging theorems for all sizes/offsets/tokens: page bound, walk = identity by induction, token round trip for all u64; "
             "tied by pure token/paging streams and full list walks through gRPC", "5-C13"),
-    "C15": ("closed form of the pull loop by induction, batch bound for every i32 max_messages incl. 16-bit wrap (omega); tied by seq "
-            "correspondence with large backlogs + size oracle", "5-C15"),
+    "C15": ("closed form of the pull loop by induction, batch bound for every i32 max_messages incl. 16-bit wrap (omega), empty-response "
+            "rule through the blocking-pull and timer loops of the system model (C15_blocking_pull, with fuel sufficiency of the timer "
+            "loop); tied by seq correspondence incl. backlogs around 65536 + size oracle", "5-C15"),
     "C17": ("total handler model; malformed => INVALID_ARGUMENT and unchanged state for every request kind; rejected => unchanged; "
             "tied by structured malformed-request streams through gRPC (panic/hang/abort are outputs the model never has)", "5-C17"),
     "C18": ("shape, canonical re-parse and injectivity of display for all byte strings; tied by exhaustive small-alphabet + mutation "
@@ -78,7 +83,7 @@ def main():
         },
         "engines": [
             {"name": "lean-model", "path": "lean", "serves_properties": sorted(CHECKS), "kind_free_text": "Lean 4 model + theorems (lake project, core only)"},
-            {"name": "dvh", "path": "harness", "serves_properties": sorted(CHECKS), "kind_free_text": "Rust harness driving the real server in-process (pure / seq / trace modes)"},
+            {"name": "dvh", "path": "harness", "serves_properties": sorted(CHECKS), "kind_free_text": "Rust harness driving the real server in-process (pure / seq / conc / push modes, hook log)"},
             {"name": "check", "path": "check", "serves_properties": sorted(CHECKS), "kind_free_text": "Python orchestrator: build, proof gate, correspondence diff, oracles, evidence"},
         ],
         "checks": [],
